@@ -63,6 +63,9 @@ func main() {
 	main, lerr := Load(LoadOpts{Repo: abs, Tags: defaultTags})
 	var normNotes []string
 	asWritten := main
+	if d := os.Getenv("TVC_DUMP_FUNCS"); d != "" && lerr == nil {
+		dumpFuncs(main, d)
+	}
 	if lerr == nil && !*nonorm {
 		// anchors: every function a rule of any property asks for by name stays a function
 		main.collect = map[*types.Func]bool{}
@@ -91,6 +94,17 @@ func main() {
 		for _, n := range strings.Split(frozenAnchors, "\n") {
 			if n = strings.TrimSpace(n); n != "" {
 				anchors[n] = true
+			}
+		}
+		for oldKey, fi := range main.funcs {
+			if fi.Now == "" {
+				continue
+			}
+			normNotes = append(normNotes, "renamed: "+oldKey+" is now "+fi.Now)
+			for _, n := range oldFullNames(fi.Pkg.PkgPath, oldKey) {
+				if anchors[n] {
+					anchors[fi.Obj.FullName()] = true
+				}
 			}
 		}
 		main.collect = nil
